@@ -36,6 +36,7 @@ mod imp {
             ("Array1/Ret", catch(|| call_v1::<V, T, Array1<f64>, f64>(f, v, w, mp, Path::Ret).cells())),
             ("Array1/Buf", catch(|| call_v1::<V, T, Array1<f64>, f64>(f, v, w, mp, Path::Buf).cells())),
             ("Float64Chunked/Ret", catch(|| call_v1::<V, T, Float64Chunked, Option<f64>>(f, v, w, mp, Path::Ret).cells())),
+            ("Float64Chunked/Buf", catch(|| call_v1::<V, T, Float64Chunked, Option<f64>>(f, v, w, mp, Path::Buf).cells())),
         ]
     }
     pub fn roll2_all_outputs<V, T>(f: R2, v: &V, second: &Vec<f64>, w: usize, mp: Option<usize>) -> Vec<(&'static str, Outcome<Vec<Cell>>)>
@@ -49,6 +50,7 @@ mod imp {
             ("VecDeque/Buf", catch(|| call_v2::<V, T, Vec<f64>, f64, VecDeque<f64>, f64>(f, v, second, w, mp, Path::Buf).cells())),
             ("Array1/Ret", catch(|| call_v2::<V, T, Vec<f64>, f64, Array1<f64>, f64>(f, v, second, w, mp, Path::Ret).cells())),
             ("Float64Chunked/Ret", catch(|| call_v2::<V, T, Vec<f64>, f64, Float64Chunked, Option<f64>>(f, v, second, w, mp, Path::Ret).cells())),
+            ("Float64Chunked/Buf", catch(|| call_v2::<V, T, Vec<f64>, f64, Float64Chunked, Option<f64>>(f, v, second, w, mp, Path::Buf).cells())),
         ]
     }
 
@@ -472,9 +474,9 @@ fn main() {
     total.sample(json!({"cell": {"function": "ts_vstd", "input": "VecDeque(head=6,wrapped)", "output": "Array1/Buf", "series": [0, null, 3, 1], "w": 2}, "oracle": "identical to Vec -> Vec/Ret"}));
     total.sample(json!({"cell": {"function": "vquantile(0.25, Linear)", "input": "Float64Chunked[1, 2, 1]", "series": [1, 0, null, 3]}, "oracle": "identical to Vec"}));
     let meta = Meta {
-        rule: "finite matrix: every word over {null,0,1,3} up to length L, realised as every input back-end configuration (Vec, Arc<Vec>, [T;N], VecDeque x 8 head offsets incl. wrapped, Array1, ArrayView1 steps 1,2,3,-1,-2, ArrayViewMut1, Arc<Array1>, OptIter<Vec>, OptIter<Array1>, Float64Chunked / &Float64Chunked under every chunking into <= 3 chunks with validity bitmaps) for element types f64 (NaN) and Option<f64>, x every output container (Vec, VecDeque, Array1 returned and caller buffer; Float64Chunked returned) x every function: 23 single-series and 7 two-series rolling functions with a representative (w, min_periods) set, the mapping set, the aggregations incl. quantiles, Spearman, half_life, winsorize; oracle = the same call on Vec returning Vec, exact comparison (None ~ NaN). Accessor sub-check per container: len, get(0..=len), uget, titer forwards / backwards / alternating, slice(a,b) for all a<=b<=len, try_as_slice. Non-trivial = distinct words (each expanded into the whole matrix).".into(),
+        rule: "finite matrix: every word over {null,0,1,3} up to length L, realised as every input back-end configuration (Vec, Arc<Vec>, [T;N], VecDeque x 8 head offsets incl. wrapped, Array1, ArrayView1 steps 1,2,3,-1,-2, ArrayViewMut1, Arc<Array1>, OptIter<Vec>, OptIter<Array1>, Float64Chunked / &Float64Chunked under every chunking into <= 3 chunks with validity bitmaps) for element types f64 (NaN) and Option<f64>, x every output container (Vec, VecDeque, Array1, Float64Chunked; returned and caller buffer) x every function: 23 single-series and 7 two-series rolling functions with a representative (w, min_periods) set, the mapping set, the aggregations incl. quantiles, Spearman, half_life, winsorize; oracle = the same call on Vec returning Vec, exact comparison (None ~ NaN). Accessor sub-check per container: len, get(0..=len), uget, titer forwards / backwards / alternating, slice(a,b) for all a<=b<=len, try_as_slice. Non-trivial = distinct words (each expanded into the whole matrix).".into(),
         bounds: json!({"alphabet": json_word(&fam.alpha), "L": fam.max_len, "w": "1,2,3,len+1", "min_periods": "omitted, 1, w"}),
-        assumptions: vec!["(Polars output, caller buffer) does not exist (DESIGN 5.8)".into(), "calls that panic on the reference and on the cell alike count as equal".into(), "try_as_slice(): None always acceptable, Some must be the logical sequence (DESIGN 5.6)".into()],
+        assumptions: vec!["calls that panic on the reference and on the cell alike count as equal".into(), "try_as_slice(): None always acceptable, Some must be the logical sequence (DESIGN 5.6)".into()],
         exhaustive: true,
         min_states: 300,
     };
